@@ -1,6 +1,10 @@
 import UPVerif.Core.Sexp
 import UPVerif.Drv.C33
 import UPVerif.Drv.Den
+import UPVerif.Drv.C26
+import UPVerif.Drv.C08
+import UPVerif.Drv.C31
+import UPVerif.Drv.C11
 import UPVerif.Drv.C23
 import UPVerif.Drv.C22
 import UPVerif.Drv.C30
@@ -45,6 +49,10 @@ def handlers : List (String × (Sexp → Sexp)) := [
   ("C30", Drv.C30.handle),
   ("C22", Drv.C22.handle),
   ("C23", Drv.C23.handle),
+  ("C11", Drv.C11.handle),
+  ("C31", Drv.C31.handle),
+  ("C08", Drv.C08.handle),
+  ("C26", Drv.C26.handle),
   ("ECHO", Drv.Den.handleEcho),
   ("DEN", Drv.Den.handleDen)
 ]
